@@ -91,51 +91,67 @@ pub fn signature_matches(sig: &str, sc: &Scenario, out: &RunOutput, v: &Violatio
         // honoured, so the blocked writer is not woken by it).
         "delivered-probe-popped-before-its-ack" => {
             use crate::hist::Ev;
-            let mut delivered: std::collections::HashMap<(std::net::SocketAddr, u16, u16), usize> = Default::default();
-            for (t, ev) in &out.hist.evs {
-                if *t > v.t {
-                    break;
-                }
+            use std::collections::{HashMap, HashSet};
+            let evs = &out.hist.evs;
+            // (events are in time order)
+            let end = evs.partition_point(|(t, _)| *t <= v.t);
+            let start_t = evs.partition_point(|(t, _)| *t < v.t);
+            let mut delivered: HashMap<(std::net::SocketAddr, u16, u16), usize> = Default::default();
+            let mut delivered_by_src: HashMap<std::net::SocketAddr, HashSet<u16>> = Default::default();
+            for (_, ev) in &evs[..end] {
                 if let Ev::Deliver(d) = ev {
                     if let Some(p) = &d.pkt {
                         if p.typ == crate::codec::ST_DATA && !d.corrupted {
                             delivered.entry((d.src, p.conn_id, p.seq)).or_insert(p.payload.len());
+                            delivered_by_src.entry(d.src).or_default().insert(p.seq);
                         }
                     }
                 }
             }
-            let recut = out.hist.evs.iter().any(|(_, ev)| match ev {
+            let recut = evs.iter().any(|(_, ev)| match ev {
                 Ev::Emit(e) if e.real => e.pkt.as_ref().is_some_and(|p| p.typ == crate::codec::ST_DATA && delivered.get(&(e.src, p.conn_id, p.seq)).is_some_and(|l| *l != p.payload.len())),
                 _ => false,
             });
+            if recut {
+                return true;
+            }
             // or the run ends before the bytes are cut again: at the violation instant an ACK
             // for a delivered data packet S reaches its sender whose end-of-poll snapshot shows
             // last_sent_seq_nr < S (the probe was taken back: S counts as never sent)
             // (the snapshot at the violation instant, or the last one before the ACK arrived)
-            let mut last_snap: std::collections::HashMap<std::net::SocketAddr, u16> = Default::default();
-            let mut taken_back = false;
-            for (t, ev) in &out.hist.evs {
-                if *t > v.t {
-                    break;
+            let acks_at_t: Vec<&crate::hist::Deliver> = evs[start_t..end].iter().filter_map(|(_, ev)| if let Ev::Deliver(d) = ev { (!d.corrupted && d.pkt.is_some()).then_some(d) } else { None }).collect();
+            let names_delivered_above = |d: &crate::hist::Deliver, last_sent: u16| {
+                let Some(set) = delivered_by_src.get(&d.dst) else { return false };
+                acked_seqs(d.pkt.as_ref().unwrap()).iter().any(|q| set.contains(q) && crate::util::seq_lt(last_sent, *q))
+            };
+            let mut last_snap: HashMap<std::net::SocketAddr, u16> = Default::default();
+            for (_, ev) in &evs[..start_t] {
+                if let Ev::Probe(librqbit_utp::verif::ProbeEvent::ConnPoll(sn)) = ev {
+                    last_snap.insert(sn.key.local, sn.last_sent_seq_nr);
                 }
+            }
+            let mut taken_back = false;
+            for (_, ev) in &evs[start_t..end] {
                 match ev {
                     Ev::Probe(librqbit_utp::verif::ProbeEvent::ConnPoll(sn)) => {
-                        if *t == v.t && taken_back_candidate(&delivered, &out.hist, v.t, sn.key.local, sn.last_sent_seq_nr) {
+                        if acks_at_t.iter().any(|d| d.dst == sn.key.local && names_delivered_above(d, sn.last_sent_seq_nr)) {
                             taken_back = true;
+                            break;
                         }
                         last_snap.insert(sn.key.local, sn.last_sent_seq_nr);
                     }
-                    Ev::Deliver(d) if !d.corrupted && *t == v.t => {
-                        if let (Some(a), Some(ls)) = (&d.pkt, last_snap.get(&d.dst)) {
-                            if acked_seqs(a).iter().any(|q| delivered.keys().any(|(src, _, s)| *src == d.dst && s == q) && crate::util::seq_lt(*ls, *q)) {
+                    Ev::Deliver(d) if !d.corrupted && d.pkt.is_some() => {
+                        if let Some(ls) = last_snap.get(&d.dst) {
+                            if names_delivered_above(d, *ls) {
                                 taken_back = true;
+                                break;
                             }
                         }
                     }
                     _ => {}
                 }
             }
-            recut || taken_back
+            taken_back
         }
         // F7 (same root cause as F1): a popped MTU probe is re-cut into MORE segments after the
         // connection already assigned its FIN the next sequence number (fin-wait-1): a data
@@ -308,15 +324,6 @@ fn delivered_probe_resegmented(sc: &Scenario, out: &RunOutput, v: &Violation, ex
         *t <= v.t && m >= len && (0..8).any(|slack| {
             m >= len + slack && crate::util::prf_mismatch(key, m - len - slack, &p.payload).is_none()
         })
-    })
-}
-
-/// At instant `t` an ACK for a delivered data packet S reaches `local`, whose snapshot shows
-/// last_sent_seq_nr < S.
-fn taken_back_candidate(delivered: &std::collections::HashMap<(std::net::SocketAddr, u16, u16), usize>, h: &crate::hist::History, t: u64, local: std::net::SocketAddr, last_sent: u16) -> bool {
-    h.evs.iter().filter(|(te, _)| *te == t).any(|(_, ev)| match ev {
-        crate::hist::Ev::Deliver(d) if !d.corrupted && d.dst == local => d.pkt.as_ref().is_some_and(|a| acked_seqs(a).iter().any(|q| delivered.keys().any(|(src, _, s)| *src == local && s == q) && crate::util::seq_lt(last_sent, *q))),
-        _ => false,
     })
 }
 
